@@ -5,12 +5,29 @@ namespace Juniper.Proofs.Helpers
 open Juniper.Model.Helpers Juniper.Spec.Helpers Juniper.Gen.Helpers
 variable {α : Type}
 
-theorem chunkCount_nat (n m : Nat) (hm : 0 < m) :
-    chunkCount (n : Int) (m : Int) = (((n + m - 1) / m : Nat) : Int) := by
-  unfold chunkCount
-  rw [Int.tdiv_eq_ediv_of_nonneg (by omega)]
-  have : ((n : Int) + (m : Int) - 1) = ((n + m - 1 : Nat) : Int) := by omega
-  rw [this, Int.natCast_ediv]
+open Juniper.Facts in
+/-- the number of chunks, for every length and chunk size that fit in an `int`: no intermediate value
+of `(len(s)-1)/chunkSize + 1` leaves the `int64` range -/
+theorem chunkN_nat (n m : Nat) (hm : 0 < m) (hn : n ≤ 9223372036854775807) (hm' : m ≤ 9223372036854775807) :
+    chunkN (n : Int) (m : Int) = (((n + m - 1) / m : Nat) : Int) := by
+  unfold chunkN chunkMake chunkNonEmpty chunkCountNonEmpty chunkCountEmpty
+  by_cases h0 : n = 0
+  · subst h0
+    have : (0 + m - 1) / m = 0 := Nat.div_eq_of_lt (by omega)
+    rw [this]; simp
+  · have hpos : ((n : Int) > 0) := by omega
+    simp only [hpos, decide_true, if_true]
+    have e1 : wrap64 ((n : Int) - 1) = ((n - 1 : Nat) : Int) := by
+      rw [wrap64_of_range (by omega) (by omega)]; omega
+    rw [e1, ← Int.ofNat_tdiv]
+    have hq : (n - 1) / m ≤ n - 1 := Nat.div_le_self _ _
+    rw [wrap64_nat (n := (n - 1) / m) (by omega)]
+    have e2 : (((n - 1) / m : Nat) : Int) + 1 = (((n - 1) / m + 1 : Nat) : Int) := by omega
+    rw [e2, wrap64_nat (n := (n - 1) / m + 1) (by omega)]
+    have : (n + m - 1) / m = (n - 1) / m + 1 := by
+      have : n + m - 1 = (n - 1) + m := by omega
+      rw [this, Nat.add_div_right _ hm]
+    rw [this]
 
 theorem chunk_idx_lt (n m i : Nat) (hm : 0 < m) (hi : i < (n + m - 1) / m) : i * m < n := by
   have h1 : i + 1 ≤ (n + m - 1) / m := hi
@@ -24,24 +41,52 @@ theorem chunk_count_ge (n m : Nat) (hm : 0 < m) : n ≤ ((n + m - 1) / m) * m :=
     rw [Nat.mul_succ, Nat.mul_comm]
   omega
 
+seal Juniper.Facts.wrap64
+open Juniper.Facts in
+/-- one iteration of `Chunk`'s loop, `i * chunkSize < len(s) ≤ MaxInt64`: `i * chunkSize`,
+`len(s) - start` and `start + chunkSize` all stay inside `[0, len(s)]`, so the 64-bit arithmetic is exact -/
+theorem chunkRange_nat (n m i : Nat) (hn : n ≤ 9223372036854775807) (hlt : i * m < n) :
+    (chunkLo (chunkStart i m) (if chunkFull n (chunkStart i m) m then chunkEndFull (chunkStart i m) m else chunkEndLast n),
+     chunkHi (chunkStart i m) (if chunkFull n (chunkStart i m) m then chunkEndFull (chunkStart i m) m else chunkEndLast n)) =
+    (((i * m : Nat) : Int), ((min ((i + 1) * m) n : Nat) : Int)) := by
+  have h2 : (i + 1) * m = i * m + m := Nat.succ_mul i m
+  have h0 : chunkStart (i : Int) (m : Int) = ((i * m : Nat) : Int) := by
+    have h : i * m ≤ 9223372036854775807 := by omega
+    have := wrap64_nat h
+    rw [Int.natCast_mul] at this
+    exact this
+  rw [h0]
+  simp only [chunkEndFull, chunkEndLast, chunkFull, chunkLo, chunkHi]
+  have e1 : wrap64 ((n : Int) - ((i * m : Nat) : Int)) = ((n - i * m : Nat) : Int) := by
+    have h : n - i * m ≤ 9223372036854775807 := by omega
+    have := wrap64_nat h
+    rw [← this]; congr 1; omega
+  simp only [e1]
+  by_cases hfull : n - i * m > m
+  · have hd : (((n - i * m : Nat) : Int) > (m : Int)) := by omega
+    simp only [hd, decide_true, if_true]
+    have e2 : wrap64 (((i * m : Nat) : Int) + (m : Int)) = (((i + 1) * m : Nat) : Int) := by
+      have h : (i + 1) * m ≤ 9223372036854775807 := by omega
+      have := wrap64_nat h
+      rw [← this]; congr 1; omega
+    simp only [e2]
+    congr 2; omega
+  · have hd : ¬ (((n - i * m : Nat) : Int) > (m : Int)) := by omega
+    simp only [hd, decide_false, Bool.false_eq_true, if_false]
+    congr 2; omega
+
 /-- the ranges of `Chunk` over `Nat`: chunk `i` is `[i*m, min ((i+1)*m) n)` -/
-theorem chunkRanges_nat (n m : Nat) (hm : 0 < m) :
+theorem chunkRanges_nat (n m : Nat) (hm : 0 < m) (hn : n ≤ 9223372036854775807) (hm' : m ≤ 9223372036854775807) :
     chunkRanges (n : Int) (m : Int) =
       (List.range ((n + m - 1) / m)).map
         (fun i => (((i * m : Nat) : Int), ((min ((i + 1) * m) n : Nat) : Int))) := by
   unfold chunkRanges
-  rw [chunkCount_nat n m hm]
+  rw [chunkN_nat n m hm hn hm']
   simp only [Int.toNat_natCast]
   apply List.map_congr_left
-  intro i _
-  simp only [chunkStart, chunkEnd, chunkClip, chunkClipVal, chunkLo, chunkHi]
-  have h1 : ((i : Int) + 1) * (m : Int) = (((i + 1) * m : Nat) : Int) := by simp
-  have h0 : (i : Int) * (m : Int) = ((i * m : Nat) : Int) := by simp
-  simp only [h1, h0, decide_eq_true_eq]
-  generalize (i + 1) * m = e
-  split
-  · congr 2; omega
-  · congr 2; omega
+  intro i hi
+  rw [List.mem_range] at hi
+  exact chunkRange_nat n m i hn (chunk_idx_lt n m i hm hi)
 
 /-- the first `c` chunks concatenate to the first `c*m` elements -/
 theorem chunk_flatten_nat (s : List α) (m c : Nat) :
@@ -59,14 +104,14 @@ theorem chunk_flatten_nat (s : List α) (m c : Nat) :
     simp only [List.length_drop]
     omega
 
-theorem chunk_some_nat (n m : Nat) (hm : 0 < m) :
+theorem chunk_some_nat (n m : Nat) (hm : 0 < m) (hn : n ≤ 9223372036854775807) (hm' : m ≤ 9223372036854775807) :
     chunk (n : Int) (m : Int) = some (chunkRanges (n : Int) (m : Int)) := by
   unfold chunk
   have hp : chunkPanics (m : Int) = false := by simp [chunkPanics]; omega
-  have hc : ¬ (chunkCount (n : Int) (m : Int) < 0) := by
-    rw [chunkCount_nat n m hm]; exact Int.not_lt.mpr (Int.natCast_nonneg _)
+  have hc : ¬ (chunkN (n : Int) (m : Int) < 0) := by
+    rw [chunkN_nat n m hm hn hm']; exact Int.not_lt.mpr (Int.natCast_nonneg _)
   have hall : (chunkRanges (n : Int) (m : Int)).all (fun r => sliceOk r.1 r.2 n) = true := by
-    rw [chunkRanges_nat n m hm, List.all_eq_true]
+    rw [chunkRanges_nat n m hm hn hm', List.all_eq_true]
     intro r hr
     rw [List.mem_map] at hr
     obtain ⟨i, hi, rfl⟩ := hr
@@ -79,7 +124,10 @@ theorem chunk_some_nat (n m : Nat) (hm : 0 < m) :
   have h0' : ¬ (m = 0) := by omega
   simp [hp, h0', hc, hall]
 
-theorem chunk_panics_iff_nonpositive (len size : Int) (h : 0 ≤ len) : chunk len size = none ↔ size ≤ 0 := by
+/-- `Chunk` panics exactly for a non-positive chunk size — for EVERY `int` chunk size and every slice
+length an `int` can hold (`0 ≤ len ≤ MaxInt64`), in 64-bit arithmetic. -/
+theorem chunk_panics_iff_nonpositive (len size : Int) (h : 0 ≤ len) (hl : len ≤ 9223372036854775807)
+    (hs' : size ≤ 9223372036854775807) : chunk len size = none ↔ size ≤ 0 := by
   constructor
   · intro hn
     by_cases hs : size ≤ 0
@@ -87,13 +135,14 @@ theorem chunk_panics_iff_nonpositive (len size : Int) (h : 0 ≤ len) : chunk le
     · exfalso
       have h1 : len = ((len.toNat : Nat) : Int) := by omega
       have h2 : size = ((size.toNat : Nat) : Int) := by omega
-      rw [h1, h2, chunk_some_nat _ _ (by omega)] at hn
+      rw [h1, h2, chunk_some_nat _ _ (by omega) (by omega) (by omega)] at hn
       simp at hn
   · intro hs
     unfold chunk
     simp [chunkPanics, chunkGuardPanics, hs]
 
-theorem chunk_concat_sizes (s : List α) (size : Int) (h : 0 < size) :
+theorem chunk_concat_sizes (s : List α) (size : Int) (h : 0 < size) (hs : size ≤ 9223372036854775807)
+    (hl : s.length ≤ 9223372036854775807) :
     ∃ rs, chunk (s.length : Int) size = some rs ∧
       (rs.map (fun r => slice s r.1 r.2)).flatten = s ∧
       (rs.length : Int) = ((s.length : Int) + size - 1) / size ∧
@@ -101,14 +150,15 @@ theorem chunk_concat_sizes (s : List α) (size : Int) (h : 0 < size) :
       (∀ r ∈ rs.dropLast, r.2 - r.1 = size) := by
   obtain ⟨m, rfl⟩ : ∃ m : Nat, size = (m : Int) := ⟨size.toNat, by omega⟩
   have hm : 0 < m := by omega
-  refine ⟨_, chunk_some_nat s.length m hm, ?_, ?_, ?_, ?_⟩
-  · rw [chunkRanges_nat _ _ hm, chunk_flatten_nat]
+  have hm' : m ≤ 9223372036854775807 := by omega
+  refine ⟨_, chunk_some_nat s.length m hm hl hm', ?_, ?_, ?_, ?_⟩
+  · rw [chunkRanges_nat _ _ hm hl hm', chunk_flatten_nat]
     exact List.take_of_length_le (chunk_count_ge _ _ hm)
-  · rw [chunkRanges_nat _ _ hm]
+  · rw [chunkRanges_nat _ _ hm hl hm']
     simp only [List.length_map, List.length_range]
     have : ((s.length : Int) + (m : Int) - 1) = ((s.length + m - 1 : Nat) : Int) := by omega
     rw [this, Int.natCast_ediv]
-  · rw [chunkRanges_nat _ _ hm]
+  · rw [chunkRanges_nat _ _ hm hl hm']
     intro r hr
     rw [List.mem_map] at hr
     obtain ⟨i, hi, rfl⟩ := hr
@@ -117,7 +167,7 @@ theorem chunk_concat_sizes (s : List α) (size : Int) (h : 0 < size) :
     have h2 : (i + 1) * m = i * m + m := Nat.succ_mul i m
     simp only
     omega
-  · rw [chunkRanges_nat _ _ hm]
+  · rw [chunkRanges_nat _ _ hm hl hm']
     intro r hr
     rw [← List.map_dropLast, List.mem_map] at hr
     obtain ⟨i, hi, rfl⟩ := hr
